@@ -29,8 +29,10 @@ type UDPConn struct {
 	// statistics for oracles
 	Closes    int
 	ReadCalls int
-	// BatchMax bounds how many datagrams one ReadBatch may return (0 = as many as fit).
+	// BatchPartial lets ReadBatch return only the first queued datagram (environment choice).
 	BatchPartial bool
+	// OnClose is called (by the closing thread, at that instant) when the socket is closed.
+	OnClose func()
 }
 
 // Sockets lists the sockets created since Reset, in creation order.
@@ -97,6 +99,9 @@ func (c *UDPConn) Close() error {
 		return &net.OpError{Op: "close", Net: "udp", Addr: c.laddr, Err: errClosed}
 	}
 	c.closed = true
+	if c.OnClose != nil {
+		c.OnClose()
+	}
 	return nil
 }
 
